@@ -12,7 +12,7 @@ case "$cmd" in
   rm -rf "$d"; mkdir -p "$d"
   git -C /repo worktree prune
   git -C /repo worktree add --detach "$d/repo" HEAD >/dev/null
-  rsync -a --exclude .git --exclude 'work/*/' --exclude 'work/.*' /verif/ "$d/verif/"
+  rsync -a --exclude .git --exclude 'work/*/' --exclude 'work/.*' /verif/ "$d/verif/" || [ $? -eq 24 ]   # 24 = files vanished while copying (parallel coq builds)
   mkdir -p "$d/verif/work"
   [ -d /verif/work/bin ] && cp -r /verif/work/bin "$d/verif/work/" || true
   echo "$d/repo" > "$d/verif/.repo_path"
